@@ -65,6 +65,8 @@ type PassOp struct {
 // PassState is the stored record after an operation.
 type PassState struct {
 	Has      bool   `json:"has"`
+	HasValid bool   `json:"hasvalid"`
+	HasExp   bool   `json:"hasexpire"`
 	Code     int    `json:"code"` // issue index of the stored code
 	Valid    string `json:"valid"`
 	Expire   string `json:"expire"`
@@ -99,42 +101,45 @@ type Obs struct {
 	Left    string    `json:"left,omitempty"`    // session: remaining ns
 	Expires string    `json:"expires,omitempty"` // session: expiry ns
 	Claims  *Claims   `json:"claims,omitempty"`
-	PayOK   bool      `json:"payok,omitempty"` // jwt: returned Payload == text before the last dot
+	PayOK   bool      `json:"payok,omitempty"`   // jwt: returned Payload == text before the last dot
+	Refresh bool      `json:"refresh,omitempty"` // gate: NeedRefresh
 	Crash   string    `json:"crash,omitempty"`
 	Pass    []PassRes `json:"pass,omitempty"`
 }
 
 type Case struct {
-	I      int      `json:"i"`
-	Stream string   `json:"stream"`
-	Op     string   `json:"op"`
-	Fam    string   `json:"fam,omitempty"`
-	Key    int      `json:"key,omitempty"`
-	Tok    string   `json:"tok,omitempty"`   // hex of the token text / blob
-	Data   string   `json:"data,omitempty"`  // hex
-	Hash   string   `json:"hash,omitempty"`  // hex (rsa time block)
-	HashD  string   `json:"hashd,omitempty"` // hex: sha256(Data) computed here
-	SigOK  bool     `json:"sigok,omitempty"`
-	Now    string   `json:"now,omitempty"`
-	T0     string   `json:"t0,omitempty"`
-	TTL    string   `json:"ttl,omitempty"`
-	MaxTTL string   `json:"maxttl,omitempty"`
-	Window string   `json:"window,omitempty"`
-	Macs   []Mac    `json:"macs,omitempty"`
-	Pin    *Hdr     `json:"pin,omitempty"`
-	HP     *Hdr     `json:"hp,omitempty"` // json parse of the (leniently) decoded header segment
-	CP     *Claims  `json:"cp,omitempty"`
-	HJ     string   `json:"hj,omitempty"` // hex: header JSON (sign cases)
-	CJ     string   `json:"cj,omitempty"` // hex: claims JSON (sign cases)
-	Tmpl   *Claims  `json:"tmpl,omitempty"`
-	C      *Claims  `json:"c,omitempty"`
-	Card   []PubKey `json:"card,omitempty"`
-	User   string   `json:"user,omitempty"`
-	Host   string   `json:"host,omitempty"`
-	Expiry string   `json:"expiry,omitempty"`
-	Ops    []PassOp `json:"ops,omitempty"`
-	Mut    *Mut     `json:"mut,omitempty"`
-	Obs    Obs      `json:"obs"`
+	I      int        `json:"i"`
+	Stream string     `json:"stream"`
+	Op     string     `json:"op"`
+	Fam    string     `json:"fam,omitempty"`
+	Key    int        `json:"key,omitempty"`
+	Tok    string     `json:"tok,omitempty"`   // hex of the token text / blob
+	Data   string     `json:"data,omitempty"`  // hex
+	Hash   string     `json:"hash,omitempty"`  // hex (rsa time block)
+	HashD  string     `json:"hashd,omitempty"` // hex: sha256(Data) computed here
+	SigOK  bool       `json:"sigok,omitempty"`
+	Now    string     `json:"now,omitempty"`
+	T0     string     `json:"t0,omitempty"`
+	TTL    string     `json:"ttl,omitempty"`
+	MaxTTL string     `json:"maxttl,omitempty"`
+	Window string     `json:"window,omitempty"`
+	Macs   []Mac      `json:"macs,omitempty"`
+	Pin    *Hdr       `json:"pin,omitempty"`
+	HP     *Hdr       `json:"hp,omitempty"` // json parse of the (leniently) decoded header segment
+	CP     *Claims    `json:"cp,omitempty"`
+	HJ     string     `json:"hj,omitempty"` // hex: header JSON (sign cases)
+	CJ     string     `json:"cj,omitempty"` // hex: claims JSON (sign cases)
+	Tmpl   *Claims    `json:"tmpl,omitempty"`
+	C      *Claims    `json:"c,omitempty"`
+	Card   []PubKey   `json:"card,omitempty"`
+	User   string     `json:"user,omitempty"`
+	Host   string     `json:"host,omitempty"`
+	Expiry string     `json:"expiry,omitempty"`
+	Privs  []PrivKey  `json:"privs,omitempty"`
+	Ops    []PassOp   `json:"ops,omitempty"`
+	Start  *PassState `json:"start,omitempty"` // passcode histories: a stored record to start from
+	Mut    *Mut       `json:"mut,omitempty"`
+	Obs    Obs        `json:"obs"`
 
 	// sweep summary
 	Class    string `json:"class,omitempty"`
@@ -186,9 +191,14 @@ func main() {
 	r.sessions()
 	r.timeTokens()
 	r.rsaTime()
+	r.challenges()
+	r.signJSON()
 	r.jwtHS()
+	r.jwtJSON()
 	r.jwtRS()
 	r.kidMatrix()
+	r.coreSign()
+	r.exchanges()
 	r.claims()
 	r.passcodes()
 }
